@@ -91,6 +91,10 @@ type nodeChk struct {
 
 	// C20
 	tagCount map[int]int
+
+	// C06 cm.match_sound
+	lastMatch     map[uint64]uint64
+	lastMatchTerm uint64
 }
 
 type fcEpisode struct {
@@ -138,6 +142,7 @@ type Checker struct {
 	emptyByTerm   map[uint64]map[uint64]bool
 
 	toolErr string
+	foreignSeen int
 	lin     *linRecorder
 }
 
@@ -223,6 +228,17 @@ func (k *Checker) report(prop, oracle string, n *Node, msg, sig string) {
 	}
 	if v.Sig == "" {
 		v.Sig = oracle
+	}
+	// A check reports its own property. A violation of another property is
+	// recorded (first one per run) and the run goes on: on a tree that breaks
+	// that other property, the property under check may break later in the
+	// same execution, and that is what this check has to see.
+	if t := k.opt.Target; t != "" && prop != t && prop != "TOOL" {
+		if k.c.foreign == nil {
+			k.c.foreign = v
+		}
+		k.foreignSeen++
+		return
 	}
 	k.c.viol = v
 }
